@@ -1,5 +1,5 @@
 use std::borrow::Cow;
-use std::collections::HashSet;
+use std::collections::BTreeSet;
 use std::convert::TryFrom;
 use std::fmt;
 use std::str::FromStr;
@@ -505,7 +505,7 @@ impl fmt::Display for MediaPlaylist<'_> {
             writeln!(f, "{}", value)?;
         }
 
-        let mut available_keys = HashSet::<ExtXKey<'_>>::new();
+        let mut available_keys = BTreeSet::<ExtXKey<'_>>::new();
 
         for segment in self.segments.values() {
             for key in &segment.keys {
@@ -584,7 +584,7 @@ fn parse_media_playlist<'a>(
     let mut has_partial_segment = false;
     let mut has_discontinuity_tag = false;
     let mut unknown = vec![];
-    let mut available_keys = HashSet::new();
+    let mut available_keys = BTreeSet::new();
 
     for line in Lines::from(input) {
         match line? {
